@@ -172,6 +172,9 @@ func (rc *realController) Finalize(release *v1beta1.BatchRelease) error {
 			return err
 		}
 		klog.InfoS("Finalize: deployment bluegreen release: wait all pods updated and ready", "Deployment", klog.KObj(rc.object))
+	} else if rc.object != nil && !rc.object.Spec.Paused {
+		// already restored by an earlier attempt and rolling natively: wait on the live object, not on the empty one
+		d = rc.object
 	}
 
 	// wait all pods updated and ready
